@@ -144,6 +144,13 @@ class C14(Check):
                 ops.append(op)
         if not ops:
             ops.append({'op': 'getter', 'obj': 'T', 'which': 'get_nodes', 'args': [['all'] * depth]})
+        if stratum in ('S-fault', 'S-mixed'):
+            # interruption (stand-in for Ctrl-C) at an arbitrary internal call of a read-only / copy-making operation: the
+            # interrupted call is lost, the template it was reading must be exactly as before
+            for o in ops:
+                if not o.get('fault') and o['op'] in ('compile', 'run', 'to_yaml', 'getter', 'update_template', 'deepcopy') \
+                        and o.get('obj', 'T') == 'T' and rng.random() < (0.35 if stratum == 'S-fault' else 0.12):
+                    o['fault'] = {'kind': 'intr', 'at_call': rng.randint(1, 900 if o['op'] in ('compile', 'run') else 60)}
         return {'spec': spec, 'sibling': sibling, 'ops': ops}
 
     # ---------------------------------------------------------------------------------------------------
@@ -198,7 +205,7 @@ class C14(Check):
                                  'detail': f'after op #{k} {name} on T the sibling sharing its template objects differs at {d[:400]}'})
                     break
             # (3) repeat law for in_place=False compile / run
-            if op['op'] in ('compile', 'run'):
+            if op['op'] in ('compile', 'run') and out.get('status') != 'interrupted':
                 key = json.dumps([op.get('obj', 'T'), op['op'], op.get('api'), op['kw']], sort_keys=True)
                 cmp_ = dict(out)
                 if op['op'] == 'compile' and cmp_.get('status') == 'ok':
